@@ -20,7 +20,7 @@ class RemoteScriptSim(mosaik_api_v3.Simulator):
         self.index = index
         self.logfile = logfile
         self.script = scorr.make_script(scenario, index)
-        self.meta = scorr.meta_for(scenario["sims"][index]["type"])
+        self.meta = scorr.meta_for(scenario["sims"][index]["type"], None, scorr.declares_set_events(scenario, index))
         self.count = {}
         self.nsteps = 0
         return self.meta
